@@ -172,6 +172,10 @@ fn render_element(x: &mut X, e: &Element, rich: bool) {
         Element::Frame(f) => {
             x.open("fx:FRAME", &format!(" ID=\"{}\"", escape(&f.id)));
             x.text_el("ho:SHORT-NAME", &f.short_name);
+            if rich && f.byte_length % 2 == 1 {
+                // frames often carry a description of their own; the loader reads it and must not let it leak
+                x.text_el("ho:DESC", "frame description");
+            }
             x.text_el("fx:BYTE-LENGTH", &f.byte_length.to_string());
             x.text_el("fx:FRAME-TYPE", "OTHER");
             x.open("fx:PDU-INSTANCES", "");
@@ -234,6 +238,9 @@ pub fn render_file(els: &[Element], style: u8, ecu_block: bool) -> Vec<u8> {
         x.open("fx:FIBEX", " xmlns:ho=\"http://www.asam.net/xml\" xmlns:fx=\"http://www.asam.net/xml/fbx\"");
         x.open("fx:PROJECT", " ID=\"Project\"");
         x.text_el("ho:SHORT-NAME", "ProjectName");
+        if ecu_block {
+            x.text_el("ho:DESC", "project description");
+        }
         x.close("fx:PROJECT");
         x.open("fx:ELEMENTS", "");
         if ecu_block {
@@ -451,8 +458,8 @@ pub fn gen_layout(rng: &mut Rng, o: &GenOpts) -> Layout {
             id,
             short_name: gen_name(rng),
             byte_length: rng.below(9),
-            app: if both { Some(rng.pick(&["APP", "A", "é"]).to_string()) } else { gen_opt_name(rng) },
-            ctx: if both { Some(rng.pick(&["CTX", "C"]).to_string()) } else { None },
+            app: if both { Some(rng.pick(&["APP", "A", "é", "MOTé", "AB€XYZ", "LONGAPPID", "AP  "]).to_string()) } else { gen_opt_name(rng) },
+            ctx: if both { Some(rng.pick(&["CTX", "C", "ABCü", "CT\t", "𝄞𝄞"]).to_string()) } else { None },
             mtype: gen_opt_name(rng),
             minfo: gen_opt_name(rng),
             pdus,
